@@ -3772,6 +3772,17 @@ func (s *swamp) FilePointerCallbackFunction(filePointerEvents []*chronicler.File
 			func() {
 				treasureObj := s.beaconKey.Get(e.TreasureKey)
 				if treasureObj == nil {
+					// Deleted while this flush was writing it: the record is in the
+					// file now, and the delete-marked object that waits for the next
+					// flush is what still stands for it. It has to carry the file
+					// pointer, because a re-creation of the key takes it over from
+					// there (SaveFunction) - without it the new record counts as never
+					// persisted, a second delete before the next flush writes nothing,
+					// and the version this flush has just written comes back after the
+					// next reload.
+					treasureObj = s.treasuresWaitingForWriter.Get(e.TreasureKey)
+				}
+				if treasureObj == nil {
 					return
 				}
 				lockerID := treasureObj.StartTreasureGuard(true, guard.BodyAuthID)
